@@ -59,6 +59,10 @@ class PROP(Prop):
                         reply = cligen.frame(proto, 1, slave, mb.spec_rsp_pdu(("RHR", [42])))
                         ops = [cligen.call_op(req), cligen.call_op(good, R="d" + reply.hex())]
                         cs.append(Case(cligen.cli_line(proto, slave, ops), {"k": "req", "proto": proto, "slave": slave, "req": mb.show_req(req), "n": n, "limit": limit, "kind": kind}, prof))
+                        # the same request through the typed method of that name (it must not add a limit of its own, nor lift one)
+                        if kind in ("WMC", "WMR", "RWMR") and (abs(n - limit) <= 12 or n in (0, 1) or rng.random() < 0.05):
+                            ops = [cligen.call_op(req, typed=True), cligen.call_op(good, R="d" + reply.hex())]
+                            cs.append(Case(cligen.cli_line(proto, slave, ops), {"k": "req", "proto": proto, "slave": slave, "req": mb.show_req(req), "n": n, "limit": limit, "kind": kind, "typed": True}, prof))
                 for kind, limit in RSP_LIMITS.items():
                     for n in self.lengths(limit, kind not in ("RC", "RDI")):
                         if n > limit + 200 and kind not in ("RC", "RDI"):
@@ -74,6 +78,9 @@ class PROP(Prop):
                         cs.append(Case(line, {"k": "rsp", "proto": proto, "slave": slave, "rsp": mb.show_rsp(rsp), "n": n, "limit": limit, "kind": kind}, prof))
         return cs
 
+    def key(self, c):
+        return c.line + c.profile
+
     def oracle(self, c):
         m = c.meta
         if "PANIC" in (c.impl or "") or "CRASH" in (c.impl or ""):
@@ -88,12 +95,14 @@ class PROP(Prop):
                     return "oversized request (%d items, PDU %d bytes) not refused with InvalidInput: %s" % (m["n"], mb.spec_req_size(req), r0[:60])
                 if len(w0):
                     return "oversized request wrote %d bytes" % len(w0)
-                if r1 != "OK:RHR:42":
-                    return "client not usable after an oversized request: %s" % r1[:60]
                 tid1 = cligen.frame(m["proto"], 1, m["slave"], mb.spec_req_pdu(("RHR", 1, 1)))
                 tid0 = cligen.frame(m["proto"], 0, m["slave"], mb.spec_req_pdu(("RHR", 1, 1)))
                 if w1 not in (tid0, tid1):
-                    return "following call wrote %s" % w1.hex()[:80]
+                    return "client not usable after an oversized request: the following call wrote %s and returned %s" % (w1.hex()[:80], r1[:40])
+                # the scripted reply answers transaction id 1 (the refused call having used up id 0, which it may or may not do):
+                # a client that did not use one up performs a normal exchange too, and sees that reply as a foreign one
+                if r1 != "OK:RHR:42" and not (m["proto"] == "tcp" and w1 == tid0 and r1 == "HM:R:RHR:42"):
+                    return "client not usable after an oversized request: %s" % r1[:60]
                 return None
             want = cligen.frame(m["proto"], 0, m["slave"], mb.spec_req_pdu(req))
             if w0 != want:
